@@ -391,9 +391,8 @@ func (s *Sim) genesis(op *Op) error {
 
 	// baseline: every existing balance and the total stake supply right after setup
 	s.baseline = make(map[string]bool)
-	s.app.BankKeeper.IterateAllBalances(s.ctx, func(addr sdk.AccAddress, _ sdk.Coin) bool {
+	s.iterateBalances(func(addr sdk.AccAddress, _ sdk.Coin) {
 		s.baseline[string(addr)] = true
-		return false
 	})
 	s.baseSupply = s.app.BankKeeper.GetSupply(s.ctx).GetTotal().AmountOf(stakeDenom)
 	s.started = true
